@@ -58,4 +58,15 @@ theorem source_single_push_ok_iff (transfer : Option Nat) : singlePushGen transf
   | none => exact ⟨fun h => absurd h (by decide), fun h => absurd h (by decide)⟩
   | some n => exact ⟨fun _ => rfl, fun _ => rfl⟩
 
+
+/-- the single-file local run (`run_sync_local_to_local`, translated): `copia sync LOCAL LOCAL` succeeds exactly when `sync_files` — run with the
+block size the user gave — does (`source_sync_files_is_model` / `source_sync_files_delivers`: what that success means for the destination) -/
+theorem source_single_local_ok_iff {R : Type} (sync_files : Nat → Option R) (bs : Nat) :
+    singleLocalGen sync_files bs = true ↔ (sync_files bs).isSome = true := by
+  unfold singleLocalGen
+  generalize sync_files bs = o
+  cases o with
+  | none => exact ⟨fun h => absurd (show false = true from h) Bool.false_ne_true, fun h => absurd (show false = true from h) Bool.false_ne_true⟩
+  | some r => exact ⟨fun _ => rfl, fun _ => rfl⟩
+
 end Copia.C01
